@@ -31,6 +31,7 @@ class Lexer:
 
     __slots__ = (
         "filter_depth",
+        "filter_func_depth",
         "func_call_stack",
         "bracket_stack",
         "tokens",
@@ -42,6 +43,9 @@ class Lexer:
     def __init__(self, query: str) -> None:
         self.filter_depth = 0
         """Filter nesting level."""
+
+        self.filter_func_depth: List[int] = []
+        """The number of open function calls when each enclosing filter started."""
 
         self.func_call_stack: List[int] = []
         """A running count of parentheses for each, possibly nested, function call.
@@ -279,6 +283,7 @@ def lex_inside_bracketed_segment(l: Lexer) -> Optional[StateFn]:  # noqa: PLR091
         if c == "?":
             l.emit(TokenType.FILTER)
             l.filter_depth += 1
+            l.filter_func_depth.append(len(l.func_call_stack))
             return lex_inside_filter
 
         if c == ",":
@@ -320,16 +325,19 @@ def lex_inside_filter(l: Lexer) -> Optional[StateFn]:  # noqa: D103, PLR0915, PL
 
         if c == "]":
             l.filter_depth -= 1
+            l.filter_func_depth.pop()
             l.backup()
             return lex_inside_bracketed_segment
 
         if c == ",":
             l.emit(TokenType.COMMA)
-            # If we have unbalanced parens, we are inside a function call and a
-            # comma separates arguments. Otherwise a comma separates selectors.
-            if l.func_call_stack:
+            # If a function call has been opened inside this filter and not yet
+            # closed, a comma separates arguments. Otherwise a comma separates
+            # selectors.
+            if len(l.func_call_stack) > l.filter_func_depth[-1]:
                 continue
             l.filter_depth -= 1
+            l.filter_func_depth.pop()
             return lex_inside_bracketed_segment
 
         if c == "'":
